@@ -1,10 +1,11 @@
 /-
-  C05 — enum accepts exactly the listed values (string-like fields: proved; numeric fields: see c05_num_partial).
+  C05 — enum accepts exactly the listed values (string-like fields: c05; integer fields: c05_numeric; float fields: differential only).
   Facts.* (emitted conditions, guards, names, zero table) are regenerated from /repo on every run;
   `mkCheck` is the hand model of makeValidator + factory, `fires` the Go-operator semantics over field
   values, `Spec.violates` the meaning of the marker written from the property statement.
 -/
 import Gvlean.Proofs.Gen
+import Gvlean.Proofs.EnumNum
 
 namespace Props
 open Go Gen Proofs
@@ -35,5 +36,20 @@ theorem c05_item_forms (f v : String) :
 -- non-vacuity: `String.splitOn`/`trimAscii` do not reduce in the kernel, so concrete instances of the
 -- hypotheses are exhibited by the compiled Spec driver in the correspondence run (evidence: samples)
 -- rather than by `decide`; the hypotheses are satisfiable, e.g. p = "red, green ,blue" on a string field.
+
+/-- enum on an INTEGER field (items pasted verbatim into `t.F != item`): for items that are decimal
+    literals representable in the field type — anything else is a compile-time error of the output — the
+    `&&`-chain fires iff the value equals none of the items (numeric comparison: `007` lists 7) -/
+theorem c05_numeric (f p : String) (ty : Ty) (k : Kind) (x : Int) (r : Bool)
+    (hty : ty.underlying = .basic k) (hk : k.isInteger = true)
+    (hnum : enumIsNum Facts.info_enum.guard ty = true)
+    (hne : Spec.enumItems p ≠ []) (hfit : Proofs.itemsFit k (Spec.enumItems p))
+    (hv : Spec.violates "enum" (some p) ty (.int x) = some r) :
+    ∃ e, enumCond f ty p Facts.info_enum.guard = some e ∧ fires (Proofs.envOf f ty (.int x)) e = some r :=
+  Proofs.enum_int_sound f p ty k x r hty hk hnum hne hfit hv
+
+/-- the hypotheses are satisfiable: every integer kind the extracted guard lists is treated as numeric -/
+example : enumIsNum Facts.info_enum.guard (.basic .int8) = true ∧ enumIsNum Facts.info_enum.guard (.named (.basic .uint64)) = true := by
+  constructor <;> rfl
 
 end Props
